@@ -82,8 +82,19 @@ def check(case):
     except CutError:
         return out
     wn, depth, trans, _ = res
-    depth = np.asarray(depth, dtype=float)
-    trans = np.asarray(trans, dtype=float)
+    depth = np.array(depth, dtype=float, copy=True)
+    trans = np.array(trans, dtype=float, copy=True)
+    # evaluating the same model object again must give the same spectrum
+    # (a retrieval evaluates one model object thousands of times)
+    out.applies('repeatable')
+    try:
+        with np.errstate(all='ignore'):
+            again = cut(out, 'run-model', m.model)
+        if not np.array_equal(np.asarray(again[1]), depth, equal_nan=True) or \
+                not np.array_equal(np.asarray(again[2]), trans, equal_nan=True):
+            out.fail('repeatable', 'second model() call differs (max rel %.2e)' % maxrel(again[1], depth))
+    except CutError:
+        return out
     nl = w['nlayers']
     Rp = w['radius'] * synth.RJUP
     Rs = w['star_R'] * RSUN
